@@ -130,6 +130,9 @@ where
 pub enum Law {
     /// C01/C03/C04: where the model defines a value the output must equal it
     Value,
+    /// C03/C04: as Value, and additionally null exactly where the statistic is undefined on a window
+    /// that holds enough observations (current element null, zero spread, constant regressor)
+    ValueUndef,
     /// C05: length, no panic, and null exactly where the model says null
     Mask,
 }
@@ -154,8 +157,15 @@ pub fn judge(
     for (i, (g, e)) in cells.iter().zip(model).enumerate() {
         let ok = match law {
             Law::Value => {
-                if e.val.is_none() {
+                if e.val.is_none() || e.any {
                     true // position belongs to the mask law (C05)
+                } else {
+                    satisfies(g, e, cmp, kind)
+                }
+            }
+            Law::ValueUndef => {
+                if e.warm {
+                    true
                 } else {
                     satisfies(g, e, cmp, kind)
                 }
@@ -164,6 +174,8 @@ pub fn judge(
                 if kind == OutKind::Int {
                     // DESIGN 5.9: mask unobservable, value law only
                     satisfies(g, e, Cmp::Tol, kind)
+                } else if e.any {
+                    true
                 } else if g.is_null() {
                     e.null_ok
                 } else {
@@ -224,6 +236,8 @@ pub struct SeriesFam {
     pub law: Law,
     pub w_lo: usize,
     pub w_extra: usize,
+    /// shortest series judged (C03 quantifies over lengths >= 1; the empty series belongs to C05)
+    pub min_len: usize,
     /// false => configuration not part of the property's space
     pub cfg_ok: fn(R1, usize, usize, Option<usize>) -> bool,
     pub classify: fn(&CaseInfo) -> Option<String>,
@@ -241,6 +255,9 @@ impl SeriesFam {
     pub fn check_word(&self, word: &[u8], ctx: &mut Ctx) {
         let x = decode(word, &self.alpha);
         let len = x.len();
+        if len < self.min_len {
+            return;
+        }
         ctx.fam(&self.name).states += 1;
         let nontrivial = x.iter().any(|v| v.is_some());
         if nontrivial {
@@ -258,6 +275,9 @@ impl SeriesFam {
                 let entry = r1_name(f, !self.plain);
                 let cmp = cmp_for(f);
                 for ty in &self.tys {
+                    if matches!(f, R1::Min | R1::Max) && ty.kind == OutKind::Int && !ty.name.ends_with('>') {
+                        continue; // a null minimum into a plain integer is the documented panic of none()
+                    }
                     for &path in &self.paths {
                         let got = match (ty.run)(f, &x, w, mp, path) {
                             None => continue,
@@ -349,5 +369,138 @@ pub fn check_long_trace(fam: &SeriesFam, label: &str, x: &[X], w_max: usize, ctx
                 }
             }
         }
+    }
+}
+
+pub struct PairInfo<'a> {
+    pub entry: &'a str,
+    pub f: R2,
+    pub a: &'a [X],
+    pub b: &'a [X],
+    pub w: usize,
+    pub mp: Option<usize>,
+    pub pos: Option<usize>,
+    pub got: &'a Outcome<Vec<Cell>>,
+    pub model: &'a [Exp],
+    pub ty: &'a str,
+}
+
+/// History tree over *pairs*: one symbol = (first-series value, second-series value).
+pub struct PairFam {
+    pub name: String,
+    pub alpha: Vec<X>,
+    pub max_len: usize,
+    pub fns: Vec<R2>,
+    pub tys: Vec<Ty2>,
+    pub paths: Vec<Path>,
+    pub law: Law,
+    pub w_lo: usize,
+    pub w_extra: usize,
+    pub classify: fn(&PairInfo) -> Option<String>,
+}
+
+impl PairFam {
+    pub fn split(&self, word: &[u8]) -> (Vec<X>, Vec<X>) {
+        let k = self.alpha.len();
+        let a = word.iter().map(|s| self.alpha[*s as usize / k]).collect();
+        let b = word.iter().map(|s| self.alpha[*s as usize % k]).collect();
+        (a, b)
+    }
+    pub fn check_pair(&self, word: &[u8], a: &[X], b: &[X], ctx: &mut Ctx) {
+        let len = a.len();
+        ctx.fam(&self.name).states += 1;
+        let nontrivial = a.iter().zip(b).any(|(x, y)| x.is_some() && y.is_some());
+        if nontrivial {
+            ctx.nontrivial(&self.name, mix(hash_bytes(word), hash_u64s(&a.iter().chain(b).map(|x| x.map_or(7, |v| v.to_bits())).collect::<Vec<_>>())));
+        }
+        for (w, mp) in wmp_band(len, self.w_lo, self.w_extra) {
+            for &f in &self.fns {
+                let model = model_for2(f, a, b, w, mp);
+                let entry = r2_name(f);
+                for ty in &self.tys {
+                    for &path in &self.paths {
+                        if matches!(f, R2::All(_)) && path == Path::Buf {
+                            continue; // ts_vregx_all has no out-buffer form
+                        }
+                        let got = match (ty.run)(f, a, b, w, mp, path) {
+                            None => continue,
+                            Some(g) => g,
+                        };
+                        ctx.eval(&self.name, outcome_hash(&got));
+                        if let Some((pos, exp, g)) = judge(&got, &model, self.law, Cmp::Tol, ty.kind) {
+                            let info = PairInfo { entry: &entry, f, a, b, w, mp, pos, got: &got, model: &model, ty: &ty.name };
+                            ctx.violation(Violation {
+                                entry: entry.clone(),
+                                finding: (self.classify)(&info),
+                                size: len * 100 + w,
+                                case: json!({"family": self.name, "word": word, "first": json_word(a), "second": json_word(b), "w": w,
+                                             "mp": mp_json(mp), "ty": ty.name, "path": format!("{path:?}"), "pos": pos}),
+                                expected: format!("{exp} (model series {})", show_exps(&model)),
+                                got: format!("{g} (output {})", show_outcome(&got)),
+                            });
+                        } else if nontrivial && ctx.samples.len() < 3 && len >= 3 && w == 3 && mp == Some(2) {
+                            ctx.sample(json!({"family": self.name, "entry": entry, "first": json_word(a), "second": json_word(b), "w": w,
+                                              "mp": mp_json(mp), "model": show_exps(&model), "observed": show_outcome(&got)}));
+                        }
+                    }
+                }
+            }
+        }
+    }
+}
+
+impl TreeSys for PairFam {
+    type Memo = ();
+    fn k(&self) -> usize {
+        self.alpha.len() * self.alpha.len()
+    }
+    fn max_len(&self) -> usize {
+        self.max_len
+    }
+    fn visit(&self, word: &[u8], _p: Option<&()>, ctx: &mut Ctx) {
+        let (a, b) = self.split(word);
+        self.check_pair(word, &a, &b, ctx)
+    }
+}
+
+/// Visitor that calls one single-series null-aware entry point on every back end handed to it.
+pub struct Roll1Visitor {
+    pub f: R1,
+    pub w: usize,
+    pub mp: Option<usize>,
+    pub path: Path,
+    pub out: Vec<(String, Outcome<Vec<Cell>>)>,
+}
+impl<T> mc_adapt::backends::BackendVisitor<T> for Roll1Visitor
+where
+    T: IsNone,
+    T::Inner: Number,
+    Option<T::Inner>: Cast<f64>,
+{
+    fn visit<V: tevec::prelude::Vec1View<T>>(&mut self, name: &str, v: &V) {
+        let (f, w, mp, path) = (self.f, self.w, self.mp, self.path);
+        let o = catch(|| call_v1::<V, T, Vec<f64>, f64>(f, v, w, mp, path).cells());
+        self.out.push((name.to_string(), o));
+    }
+}
+
+/// Visitor for the two-series family: both series live in the same kind of container.
+pub struct Roll2Visitor<'a> {
+    pub f: R2,
+    pub second: &'a [X],
+    pub w: usize,
+    pub mp: Option<usize>,
+    pub out: Vec<(String, Outcome<Vec<Cell>>)>,
+}
+impl<'a, T> mc_adapt::backends::BackendVisitor<T> for Roll2Visitor<'a>
+where
+    T: IsNone,
+    T::Inner: Number,
+{
+    fn visit<V: tevec::prelude::Vec1View<T>>(&mut self, name: &str, v: &V) {
+        let (f, w, mp) = (self.f, self.w, self.mp);
+        let b: Vec<f64> = enc_vec(self.second);
+        let o = catch(|| call_v2::<V, T, Vec<f64>, f64, Vec<f64>, f64>(f, v, &b, w, mp, Path::Ret).cells());
+        self.out.push((name.to_string(), o));
     }
 }
